@@ -43,7 +43,7 @@ def inih_flags(repo):
     return flags
 
 
-def gen_config_h(outdir, ts=True, extra_undef=(), extra_def=()):
+def gen_config_h(outdir, ts=True, extra_undef=(), extra_def=(), compiled_in=False):
     base = open(os.path.join(VERIF, 'engine/config.base.h')).read()
     out = []
     for l in base.splitlines():
@@ -59,7 +59,18 @@ def gen_config_h(outdir, ts=True, extra_undef=(), extra_def=()):
             continue
         if name in extra_undef:
             continue
+        if compiled_in:
+            # no configuration file; the compiled-in strings are variables of native/seam.c (one build, every compiled-in setting)
+            if name in ('SNOOPY_CONF_CONFIGFILE_ENABLED',):
+                continue
+            seam = {'SNOOPY_CONF_MESSAGE_FORMAT': 'verif_def_format', 'SNOOPY_CONF_FILTER_CHAIN': 'verif_def_chain', 'SNOOPY_CONF_SYSLOG_IDENT_FORMAT': 'verif_def_ident'}
+            if name in seam:
+                out.append('extern char %s[];' % seam[name])
+                out.append('#define %s (%s)' % (name, seam[name]))
+                continue
         out.append(l)
+    if compiled_in:
+        out += ['extern char verif_def_output[]; extern char verif_def_output_arg[];', '#define SNOOPY_CONF_OUTPUT_DEFAULT (verif_def_output)', '#define SNOOPY_CONF_OUTPUT_DEFAULT_ARG (verif_def_output_arg)']
     for d in extra_def:
         out.append('#define %s' % d)
     os.makedirs(outdir, exist_ok=True)
@@ -97,7 +108,7 @@ def compile_many(jobs):
 
 
 def build_variant(name, ts=True, san='asan', sched=False, pic=False, entry=('execve-wrapper',),
-                  repo=None, extra_cflags=(), force=True):
+                  repo=None, extra_cflags=(), force=True, compiled_in=False):
     """Compile the library sources into BUILD/<name>/obj/*.o; returns dict(dir, objs, cc, cflags, ldflags)."""
     repo = repo or REPO
     d = os.path.join(BUILD, '%s-%d' % (name, os.getpid()))      # per-process: the same check may run twice at the same time
@@ -105,7 +116,7 @@ def build_variant(name, ts=True, san='asan', sched=False, pic=False, entry=('exe
         shutil.rmtree(d, ignore_errors=True)
     od = os.path.join(d, 'obj')
     os.makedirs(od, exist_ok=True)
-    gen_config_h(os.path.join(d, 'inc'), ts=ts)
+    gen_config_h(os.path.join(d, 'inc'), ts=ts, compiled_in=compiled_in)
     cc, sflags = SAN[san]
     cflags = COMMON_WARN + sflags + ['-I' + os.path.join(d, 'inc'), '-I' + os.path.join(repo, 'src'),
                                      '-I' + repo] + list(extra_cflags)
